@@ -78,7 +78,9 @@ Section G.
     | SsRepeat (k : tk) (w1 : list tk) (body : sl) (w2 : list tk) (u : tk) (w3 : list tk) (c : sp) (w4 : list tk) (en : tk)
     | SsExit (k : tk)
     | SsReturn (k : tk)
-  with sl := SL (s : ss) (m : smore) (w : list tk) (semi : tk)
+  with sl := LOne (g : sg) | LCons (g : sg) (l : sl)                 (* statements_or_empty()+ *)
+  with sg := GEmpty (w1 : list tk) (semi : tk) (w2 : list tk)        (* _ ';' _ *)
+          | GStmts (s : ss) (m : smore) (w : list tk) (semi : tk)    (* semisep(statement) *)
   with smore := MNil | MCons (w1 : list tk) (semi : tk) (w2 : list tk) (s : ss) (m : smore)
   with sob := BNone | BSome (l : sl)
   with seis := EINil
@@ -87,11 +89,12 @@ Section G.
 
   Scheme ss_mut := Induction for ss Sort Prop
   with sl_mut := Induction for sl Sort Prop
+  with sg_mut := Induction for sg Sort Prop
   with smore_mut := Induction for smore Sort Prop
   with sob_mut := Induction for sob Sort Prop
   with seis_mut := Induction for seis Sort Prop
   with sels_mut := Induction for sels Sort Prop.
-  Combined Scheme ss_mutind from ss_mut, sl_mut, smore_mut, sob_mut, seis_mut, sels_mut.
+  Combined Scheme ss_mutind from ss_mut, sl_mut, sg_mut, smore_mut, sob_mut, seis_mut, sels_mut.
 
   Definition flat_by (b : sby) : list tk :=
     match b with ByNone => [] | BySome k w1 e w2 => k :: w1 ++ flat e ++ w2 end.
@@ -111,7 +114,9 @@ Section G.
     | SsReturn k => [k]
     end
   with flat_l (l : sl) : list tk :=
-    match l with SL s m w semi => flat_s s ++ flat_m m ++ w ++ [semi] end
+    match l with LOne g => flat_g g | LCons g l => flat_g g ++ flat_l l end
+  with flat_g (g : sg) : list tk :=
+    match g with GEmpty w1 semi w2 => w1 ++ semi :: w2 | GStmts s m w semi => flat_s s ++ flat_m m ++ w ++ [semi] end
   with flat_m (m : smore) : list tk :=
     match m with MNil => [] | MCons w1 semi w2 s m => w1 ++ semi :: w2 ++ flat_s s ++ flat_m m end
   with flat_b (b : sob) : list tk :=
@@ -139,7 +144,9 @@ Section G.
     | SsReturn _ => TReturn
     end
   with erase_l (l : sl) : list stmt :=
-    match l with SL s m _ _ => erase_s s :: erase_m m end
+    match l with LOne g => erase_g g | LCons g l => erase_g g ++ erase_l l end
+  with erase_g (g : sg) : list stmt :=
+    match g with GEmpty _ _ _ => [] | GStmts s m _ _ => erase_s s :: erase_m m end
   with erase_m (m : smore) : list stmt :=
     match m with MNil => [] | MCons _ _ _ s m => erase_s s :: erase_m m end
   with erase_b (b : sob) : list stmt :=
@@ -163,7 +170,9 @@ Section G.
     | SsExit _ | SsReturn _ => 1
     end
   with size_l (l : sl) : nat :=
-    match l with SL s m _ _ => 2 + size_s s + size_m m end
+    match l with LOne g => 1 + size_g g | LCons g l => 1 + size_g g + size_l l end
+  with size_g (g : sg) : nat :=
+    match g with GEmpty _ _ _ => 1 | GStmts s m _ _ => size_s s + size_m m end
   with size_m (m : smore) : nat :=
     match m with MNil => 1 | MCons _ _ _ s m => 1 + size_s s + size_m m end
   with size_b (b : sob) : nat :=
@@ -183,6 +192,15 @@ Section G.
     | BySome k w1 e w2 => cl k = CKw KwBy /\ all_triv w1 /\ wf 0 e /\ all_triv w2 /\ (ends_name e = true -> w2 = [])
     end.
 
+  (* a list that ends in an empty statement: the `_` after its ';' has read the trivia that follows *)
+  Definition gempty (g : sg) : bool := match g with GEmpty _ _ _ => true | GStmts _ _ _ _ => false end.
+  Fixpoint absorbs (l : sl) : bool := match l with LOne g => gempty g | LCons _ l => absorbs l end.
+  Definition babsorbs (b : sob) : bool := match b with BNone => false | BSome l => absorbs l end.
+  Definition el_lead (el : sels) (w4 : list tk) : list tk := match el with ENone => w4 | ESome w0 _ _ _ => w0 end.
+  Definition eis_lead (e : seis) (wt : list tk) : list tk := match e with EINil => wt | EICons w0 _ _ _ _ _ _ _ _ => w0 end.
+
+  (* [pe]: the list starts here or the previous group was an empty statement (which has read the trivia before this one);
+     a `semisep` group can only stand there -- two adjacent ones are one group *)
   Fixpoint wf_s (s : ss) : Prop :=
     match s with
     | SsAssign v w1 a w2 e => cl v = CId /\ all_triv w1 /\ cl a = CAssign /\ all_triv w2 /\ wf 0 e
@@ -192,24 +210,34 @@ Section G.
         cl rp = CRP /\ (pends p = true -> lead ps w3 = [])
     | SsIf k w1 c w2 th w3 b eis el w4 en =>
         cl k = CKw KwIf /\ all_triv w1 /\ wf 0 c /\ all_triv w2 /\ (ends_name c = true -> w2 = []) /\
-        cl th = CKw KwThen /\ all_triv w3 /\ wf_b b /\ wf_eis eis /\ wf_el el /\ all_triv w4 /\ cl en = CKw KwEndIf
+        cl th = CKw KwThen /\ all_triv w3 /\ wf_b b /\ wf_eis (el_lead el w4) eis /\ wf_el w4 el /\ all_triv w4 /\
+        cl en = CKw KwEndIf /\ (babsorbs b = true -> eis_lead eis (el_lead el w4) = [])
     | SsFor k w1 v w2 a w3 e1 w4 to w5 e2 w6 st d w7 body w8 en =>
         cl k = CKw KwFor /\ all_triv w1 /\ cl v = CId /\ all_triv w2 /\ cl a = CAssign /\ all_triv w3 /\
         wf 0 e1 /\ all_triv w4 /\ (ends_name e1 = true -> w4 = []) /\ cl to = CKw KwTo /\ all_triv w5 /\
         wf 0 e2 /\ all_triv w6 /\ (ends_name e2 = true -> w6 = []) /\ wf_by st /\ cl d = CKw KwDo /\ all_triv w7 /\
-        wf_l body /\ all_triv w8 /\ cl en = CKw KwEndFor
+        wf_l true body /\ all_triv w8 /\ cl en = CKw KwEndFor /\ (absorbs body = true -> w8 = [])
     | SsWhile k w1 c w2 d w3 body w4 en =>
         cl k = CKw KwWhile /\ all_triv w1 /\ wf 0 c /\ all_triv w2 /\ (ends_name c = true -> w2 = []) /\
-        cl d = CKw KwDo /\ all_triv w3 /\ wf_l body /\ all_triv w4 /\ cl en = CKw KwEndWhile
+        cl d = CKw KwDo /\ all_triv w3 /\ wf_l true body /\ all_triv w4 /\ cl en = CKw KwEndWhile /\
+        (absorbs body = true -> w4 = [])
     | SsRepeat k w1 body w2 u w3 c w4 en =>
-        cl k = CKw KwRepeat /\ all_triv w1 /\ wf_l body /\ all_triv w2 /\ cl u = CKw KwUntil /\ all_triv w3 /\
-        wf 0 c /\ all_triv w4 /\ (ends_name c = true -> w4 = []) /\ cl en = CKw KwEndRepeat
+        cl k = CKw KwRepeat /\ all_triv w1 /\ wf_l true body /\ all_triv w2 /\ cl u = CKw KwUntil /\ all_triv w3 /\
+        wf 0 c /\ all_triv w4 /\ (ends_name c = true -> w4 = []) /\ cl en = CKw KwEndRepeat /\
+        (absorbs body = true -> w2 = [])
     | SsExit k => cl k = CKw KwExit
     | SsReturn k => cl k = CKw KwReturn
     end
-  with wf_l (l : sl) : Prop :=
+  with wf_l (pe : bool) (l : sl) : Prop :=
     match l with
-    | SL s m w semi => wf_s s /\ wf_m w m /\ all_triv w /\ cl semi = CSemi /\ (sends s = true -> lead_m m w = [])
+    | LOne g => wf_g pe g
+    | LCons g l => wf_g pe g /\ wf_l (gempty g) l
+    end
+  with wf_g (pe : bool) (g : sg) : Prop :=
+    match g with
+    | GEmpty w1 semi w2 => (pe = true -> w1 = []) /\ all_triv w1 /\ cl semi = CSemi /\ all_triv w2
+    | GStmts s m w semi =>
+        pe = true /\ wf_s s /\ wf_m w m /\ all_triv w /\ cl semi = CSemi /\ (sends s = true -> lead_m m w = [])
     end
   with wf_m (w : list tk) (m : smore) : Prop :=
     match m with
@@ -218,18 +246,18 @@ Section G.
         all_triv w1 /\ cl semi = CSemi /\ all_triv w2 /\ wf_s s /\ wf_m w m /\ (sends s = true -> lead_m m w = [])
     end
   with wf_b (b : sob) : Prop :=
-    match b with BNone => True | BSome l => wf_l l end
-  with wf_eis (e : seis) : Prop :=
+    match b with BNone => True | BSome l => wf_l true l end
+  with wf_eis (wt : list tk) (e : seis) : Prop :=
     match e with
     | EINil => True
     | EICons w0 k w1 c w2 th w3 body r =>
         all_triv w0 /\ cl k = CKw KwElsif /\ all_triv w1 /\ wf 0 c /\ all_triv w2 /\ (ends_name c = true -> w2 = []) /\
-        cl th = CKw KwThen /\ all_triv w3 /\ wf_l body /\ wf_eis r
+        cl th = CKw KwThen /\ all_triv w3 /\ wf_l true body /\ wf_eis wt r /\ (absorbs body = true -> eis_lead r wt = [])
     end
-  with wf_el (e : sels) : Prop :=
+  with wf_el (w4 : list tk) (e : sels) : Prop :=
     match e with
     | ENone => True
-    | ESome w0 k w1 body => all_triv w0 /\ cl k = CKw KwElse /\ all_triv w1 /\ wf_l body
+    | ESome w0 k w1 body => all_triv w0 /\ cl k = CKw KwElse /\ all_triv w1 /\ wf_l true body /\ (absorbs body = true -> w4 = [])
     end.
 
   (* ---- what may follow ---- *)
@@ -321,61 +349,70 @@ Section G.
     all: eexists _, _; (split; [cbn [app]; reflexivity|]); unfold StExprProofs.solid; rewrite H; split; [discriminate | reflexivity].
   Qed.
 
-  Lemma flat_l_skip l r : wf_l l -> skip (flat_l l ++ r) = flat_l l ++ r.
+  Lemma flat_g_head g r : wf_g true g -> exists t r', flat_g g ++ r = t :: r' /\ solid t.
   Proof.
-    destruct l as [s m w semi]. cbn [wf_l flat_l]. intros (Hs & _). rewrite <- !app_assoc.
-    destruct (flat_s_head s (flat_m m ++ w ++ [semi] ++ r) Hs) as (t & r' & E & Ht & _). rewrite E. apply skip_solid. exact Ht.
+    destruct g as [w1 semi w2|s m w semi]; cbn [wf_g flat_g].
+    - intros (Hw1 & _ & Hsemi & _). rewrite (Hw1 eq_refl). cbn [app]. eexists semi, _. split; [reflexivity|].
+      unfold StExprProofs.solid. rewrite Hsemi. discriminate.
+    - intros (_ & Hs & _). rewrite <- !app_assoc.
+      destruct (flat_s_head s (flat_m m ++ w ++ [semi] ++ r) Hs) as (t & r' & E & Ht & _). exists t, r'. split; assumption.
+  Qed.
+
+  Lemma flat_l_skip l r : wf_l true l -> skip (flat_l l ++ r) = flat_l l ++ r.
+  Proof.
+    destruct l as [g|g l]; cbn [wf_l flat_l].
+    - intro Hg. destruct (flat_g_head g r Hg) as (t & r' & E & Ht). rewrite E. apply skip_solid. exact Ht.
+    - intros (Hg & _). rewrite <- app_assoc. destruct (flat_g_head g (flat_l l ++ r) Hg) as (t & r' & E & Ht). rewrite E. apply skip_solid. exact Ht.
+  Qed.
+
+  (* after a `semisep` group the next group, if any, is an empty statement: no statement starts there *)
+  Lemma wf_false_nostart l r : wf_l false l -> nostart (flat_l l ++ r).
+  Proof.
+    assert (G : forall g r0, wf_g false g -> nostart (flat_g g ++ r0)).
+    { intros [w1 semi w2|s m w semi] r0; cbn [wf_g flat_g].
+      - intros (_ & Hw1 & Hsemi & _). unfold nostart. rewrite <- app_assoc. cbn [app]. rewrite (skip_app_triv tk cl w1 _ Hw1).
+        rewrite (skip_solid tk cl semi _) by (unfold StExprProofs.solid; rewrite Hsemi; discriminate). rewrite Hsemi. reflexivity.
+      - intros (H & _). discriminate H. }
+    destruct l as [g|g l]; cbn [wf_l flat_l]; [apply G|]. intros (Hg & _). rewrite <- app_assoc. apply G. exact Hg.
   Qed.
 
   Definition semi_next (s : ss) (rest : list tk) : Prop :=
     exists w semi r, rest = w ++ semi :: r /\ all_triv w /\ cl semi = CSemi /\ (sends s = true -> w = []).
 
-  Definition eis_follow (rest : list tk) : Prop :=
-    match skip rest with
-    | t :: _ => match cl t with CKw KwElse | CKw KwEndIf => True | _ => False end
-    | [] => False
-    end.
-
-  Lemma eis_follow_closer rest : eis_follow rest -> closer_next rest.
-  Proof.
-    unfold eis_follow, closer_next. destruct (skip rest) as [|t r]; [exact (fun x => x)|].
-    destruct (cl t) as [| |k0| | | | | | |o| | |k| | | |]; try contradiction. destruct k; try contradiction; reflexivity.
-  Qed.
-
-  Lemma eis_closer e rest : wf_eis e -> eis_follow rest -> closer_next (flat_eis e ++ rest).
-  Proof.
-    destruct e as [|w0 k w1 c w2 th w3 body r]; cbn [wf_eis flat_eis app].
-    - intros _. apply eis_follow_closer.
-    - intros (Hw0 & Hk & _) _. rewrite <- !app_assoc. cbn [app]. eapply closer_at; [exact Hw0 | exact Hk | reflexivity].
-  Qed.
-
-  Lemma el_follow el w4 en r : wf_el el -> all_triv w4 -> cl en = CKw KwEndIf -> eis_follow (flat_el el ++ w4 ++ en :: r).
-  Proof.
-    destruct el as [|w0 k w1 body]; cbn [wf_el flat_el app]; unfold eis_follow.
-    - intros _ Hw4 Hen. rewrite (skip_app_triv tk cl w4 _ Hw4), (skip_solid tk cl en r (kw_solid en _ Hen)), Hen. exact I.
-    - intros (Hw0 & Hk & _) _ _. rewrite <- !app_assoc. cbn [app].
-      rewrite (skip_app_triv tk cl w0 _ Hw0), (skip_solid tk cl k _ (kw_solid k _ Hk)), Hk. exact I.
-  Qed.
+  (* what follows a group inside a list *)
+  Definition gfollow (g : sg) (rest : list tk) : Prop :=
+    match g with GEmpty _ _ _ => skip rest = rest | GStmts _ _ _ _ => nostart rest end.
 
   (* ---- the main induction ---- *)
   Definition P_s (s : ss) : Prop :=
     wf_s s -> forall rest, semi_next s rest -> forall F L f, size_s s <= F -> size_s s <= L -> size_s s <= f ->
     stmt1 (pexpr F) (plist L) f (flat_s s ++ rest) = Ok (erase_s s, rest).
   Definition P_l (l : sl) : Prop :=
-    wf_l l -> forall rest, closer_next rest -> forall L, size_l l <= L -> plist L (flat_l l ++ rest) = Ok (erase_l l, rest).
+    (wf_l true l -> forall rest, closer_next rest -> (absorbs l = true -> skip rest = rest) ->
+     forall L, size_l l <= L -> plist L (flat_l l ++ rest) = Ok (erase_l l, rest)) /\
+    (forall pe, wf_l pe l -> forall rest, closer_next rest -> (absorbs l = true -> skip rest = rest) ->
+     forall acc F L f0 f, size_l l <= F -> size_l l <= L -> size_l l <= f0 -> size_l l <= f ->
+     groups_more (stmt1 (pexpr F) (plist L) f0) f acc (flat_l l ++ rest) = Ok (acc ++ erase_l l, rest)).
+  Definition P_g (g : sg) : Prop :=
+    forall pe, wf_g pe g -> forall rest, gfollow g rest ->
+    forall F L f0 f, size_g g <= F -> size_g g <= L -> size_g g <= f0 -> size_g g <= f ->
+    group (stmt1 (pexpr F) (plist L) f0) f (flat_g g ++ rest) = Ok (erase_g g, rest).
   Definition P_m (m : smore) : Prop :=
     forall w, wf_m w m -> all_triv w -> forall semi rest acc, cl semi = CSemi -> nostart rest ->
     forall F L f0 f, size_m m <= F -> size_m m <= L -> size_m m <= f0 -> size_m m <= f ->
     stmts_more (stmt1 (pexpr F) (plist L) f0) f acc (flat_m m ++ w ++ semi :: rest) = Ok (acc ++ erase_m m, w ++ semi :: rest).
   Definition P_b (b : sob) : Prop :=
-    wf_b b -> forall rest, closer_next rest -> forall L, size_b b <= L ->
+    wf_b b -> forall rest, closer_next rest -> (babsorbs b = true -> skip rest = rest) -> forall L, size_b b <= L ->
     opt_list (plist L) (skip (flat_b b ++ rest)) = Ok (erase_b b, match b with BNone => skip rest | BSome _ => rest end).
+  Definition else_or_end (t : tk) : Prop := cl t = CKw KwElse \/ cl t = CKw KwEndIf.
   Definition P_eis (e : seis) : Prop :=
-    wf_eis e -> forall rest, eis_follow rest -> forall F L f, size_eis e <= F -> size_eis e <= L -> size_eis e <= f ->
-    (forall acc, elsifs_more (pexpr F) (plist L) f acc (flat_eis e ++ rest) = Ok (acc ++ erase_eis e, rest)) /\
-    elsifs (pexpr F) (plist L) f (skip (flat_eis e ++ rest)) = Ok (erase_eis e, match e with EINil => skip rest | _ => rest end).
+    forall wt, wf_eis wt e -> all_triv wt -> forall t0 r0, else_or_end t0 ->
+    forall F L f, size_eis e <= F -> size_eis e <= L -> size_eis e <= f ->
+    (forall acc, elsifs_more (pexpr F) (plist L) f acc (flat_eis e ++ wt ++ t0 :: r0) = Ok (acc ++ erase_eis e, wt ++ t0 :: r0)) /\
+    elsifs (pexpr F) (plist L) f (skip (flat_eis e ++ wt ++ t0 :: r0)) =
+      Ok (erase_eis e, match e with EINil => skip (wt ++ t0 :: r0) | _ => wt ++ t0 :: r0 end).
   Definition P_el (e : sels) : Prop :=
-    wf_el e -> forall w4 en r, all_triv w4 -> cl en = CKw KwEndIf -> forall L, size_el e <= L ->
+    forall w4, wf_el w4 e -> forall en r, all_triv w4 -> cl en = CKw KwEndIf -> forall L, size_el e <= L ->
     else_part (plist L) (flat_el e ++ w4 ++ en :: r) = Ok (erase_el e, w4 ++ en :: r).
 
   Lemma stmt1_kw pe pl f t r k : cl t = CKw k ->
@@ -408,7 +445,29 @@ Section G.
     - exists (skip ts). split; [reflexivity | apply skip_skip].
   Qed.
 
-  Lemma main_s : (forall s, P_s s) /\ (forall l, P_l l) /\ (forall m, P_m m) /\ (forall b, P_b b) /\ (forall e, P_eis e) /\ (forall e, P_el e).
+  (* no group starts at the keyword that closes the construct *)
+  Lemma groups_stop ps f acc rest : (forall t r, nonstart (cl t) = true -> ps (t :: r) = Fail) -> ps [] = Fail ->
+    closer_next rest -> groups_more ps (S f) acc rest = Ok (acc, rest).
+  Proof.
+    intros Hps Hnil Hrest. cbn [StParser.groups_more]. unfold StParser.group, StParser.next_is.
+    unfold closer_next in Hrest. destruct (skip rest) as [|t0 r0] eqn:Er; [contradiction|].
+    destruct (cl t0) eqn:Ec; try contradiction. cbn [is_semi].
+    destruct rest as [|x xs]; [discriminate|].
+    rewrite Hps; [reflexivity|]. cbn in Er. destruct (is_triv tk cl x) eqn:Ex.
+    - unfold is_triv in Ex. destruct (cl x); try discriminate; reflexivity.
+    - injection Er as -> _. rewrite Ec. cbn. rewrite Hrest. reflexivity.
+  Qed.
+
+  Lemma closer_skip w t r k : all_triv w -> cl t = CKw k -> w = [] -> skip (w ++ t :: r) = w ++ t :: r.
+  Proof. intros _ Ht ->. cbn [app]. apply skip_solid. unfold StExprProofs.solid. rewrite Ht. discriminate. Qed.
+
+  Lemma size_m_pos m : 1 <= size_m m.
+  Proof. destruct m; cbn [size_m]; lia. Qed.
+  Lemma size_g_pos g : 1 <= size_g g.
+  Proof. destruct g as [|s m w semi]; cbn [size_g]; [lia|]. pose proof (size_m_pos m). lia. Qed.
+
+  Lemma main_s : (forall s, P_s s) /\ (forall l, P_l l) /\ (forall g, P_g g) /\ (forall m, P_m m) /\ (forall b, P_b b) /\
+                 (forall e, P_eis e) /\ (forall e, P_el e).
   Proof.
     apply ss_mutind.
     - (* assignment *)
@@ -460,7 +519,7 @@ Section G.
       + exfalso. revert Hprim. repeat match goal with |- context [match ?x with _ => _ end] => destruct x end; discriminate.
     - (* IF *)
       intros k w1 c w2 th w3 b IHb eis IHeis el IHel w4 en
-             (Hk & Hw1 & Hc & Hw2 & Hcend & Hth & Hw3 & Hb & Heis & Hel & Hw4 & Hen) rest _ F L f HF HL Hf.
+             (Hk & Hw1 & Hc & Hw2 & Hcend & Hth & Hw3 & Hb & Heis & Hel & Hw4 & Hen & Habs) rest _ F L f HF HL Hf.
       cbn [size_s] in HF, HL, Hf. cbn [flat_s erase_s app].
       rewrite (stmt1_kw _ _ _ k _ KwIf Hk). unfold StParser.if_tail.
       set (R2 := flat_el el ++ w4 ++ en :: rest).
@@ -471,11 +530,27 @@ Section G.
       rewrite (pe0_at w1 c w2 th _ F Hw1 Hc Hw2 Hcend) by (try lia; rewrite Hth; reflexivity).
       rewrite (next_is_at tk cl _ w2 th _ Hw2 (kw_solid th _ Hth)) by (rewrite Hth; reflexivity).
       rewrite (skip_app_triv tk cl w3 _ Hw3).
-      assert (HR2 : eis_follow R2) by (apply el_follow; assumption).
-      assert (HR1 : closer_next R1) by (apply eis_closer; assumption).
-      rewrite (IHb Hb R1 HR1 L) by lia.
+      (* R2 = (the slot before ELSE / END_IF) ++ that keyword :: ... *)
+      assert (HR2 : exists t0 r0, R2 = el_lead el w4 ++ t0 :: r0 /\ else_or_end t0 /\ all_triv (el_lead el w4)).
+      { unfold R2. destruct el as [|ew0 ek ew1 ebody]; cbn [flat_el el_lead app wf_el] in *.
+        - exists en, rest. split; [reflexivity|]. split; [right; exact Hen | exact Hw4].
+        - destruct Hel as (Hew0 & Hek & _). eexists ek, _. rewrite <- !app_assoc. cbn [app]. split; [reflexivity|]. split; [left; exact Hek | exact Hew0]. }
+      destruct HR2 as (t0 & r0 & ER2 & Ht0 & Hlead).
+      assert (Ht0k : exists k0, cl t0 = CKw k0 /\ starter k0 = false) by (destruct Ht0 as [E|E]; eexists; (split; [exact E | reflexivity])).
+      destruct Ht0k as (k0 & Ek0 & Sk0).
+      assert (HR1 : closer_next R1).
+      { unfold R1. rewrite ER2. destruct eis as [|ew0 ek ew1 ec ew2 eth ew3 ebody er]; cbn [flat_eis app wf_eis] in *.
+        - eapply closer_at; [exact Hlead | exact Ek0 | exact Sk0].
+        - destruct Heis as (Hew0 & Hek & _). rewrite <- !app_assoc. cbn [app]. eapply closer_at; [exact Hew0 | exact Hek | reflexivity]. }
+      assert (HR1s : babsorbs b = true -> skip R1 = R1).
+      { intro Hb1. specialize (Habs Hb1). unfold R1. rewrite ER2.
+        destruct eis as [|ew0 ek ew1 ec ew2 eth ew3 ebody er]; cbn [flat_eis app eis_lead wf_eis] in *.
+        - rewrite Habs. cbn [app]. apply skip_solid. unfold StExprProofs.solid. rewrite Ek0. discriminate.
+        - destruct Heis as (_ & Hek & _). rewrite Habs. cbn [app]. apply skip_solid. unfold StExprProofs.solid. rewrite Hek. discriminate. }
+      rewrite (IHb Hb R1 HR1 HR1s L) by lia.
       assert (Hsk : skip (match b with BNone => skip R1 | BSome _ => R1 end) = skip R1) by (destruct b; [apply skip_skip | reflexivity]).
-      rewrite Hsk. destruct (IHeis Heis R2 HR2 F L f) as [_ HE]; try lia. unfold R1. rewrite HE.
+      rewrite Hsk. destruct (IHeis (el_lead el w4) Heis Hlead t0 r0 Ht0 F L f) as [_ HE]; try lia.
+      unfold R1. rewrite ER2. rewrite HE. rewrite <- ER2.
       (* the else part and END_IF, from R2 or from skip R2 *)
       assert (Hend : forall r4, r4 = R2 \/ r4 = skip R2 ->
                 match else_part (plist L) r4 with
@@ -486,10 +561,10 @@ Section G.
                 | Fail => Fail | Panic => Panic | OutOfFuel => OutOfFuel
                 end = Ok (TIf (erase c) (erase_b b) (erase_eis eis) (erase_el el), rest)).
       { intros r4 [-> | ->].
-        - unfold R2. rewrite (IHel Hel w4 en rest Hw4 Hen L) by lia.
+        - unfold R2. rewrite (IHel w4 Hel en rest Hw4 Hen L) by lia.
           rewrite (next_is_at tk cl _ w4 en rest Hw4 (kw_solid en _ Hen)) by (rewrite Hen; reflexivity). reflexivity.
         - pose proof (else_part_skip (plist L) R2) as HS. unfold R2 in HS at 1.
-          rewrite (IHel Hel w4 en rest Hw4 Hen L) in HS by lia. destruct HS as (r' & HS1 & HS2).
+          rewrite (IHel w4 Hel en rest Hw4 Hen L) in HS by lia. destruct HS as (r' & HS1 & HS2).
           rewrite HS1. unfold StParser.next_is. rewrite HS2.
           change (match skip (w4 ++ en :: rest) with
                   | [] => None
@@ -499,7 +574,7 @@ Section G.
       apply Hend. destruct eis; [right | left]; reflexivity.
     - (* FOR *)
       intros k w1 v w2 a w3 e1 w4 to w5 e2 w6 st d w7 body IHbody w8 en
-             (Hk & Hw1 & Hv & Hw2 & Ha & Hw3 & He1 & Hw4 & He1end & Hto & Hw5 & He2 & Hw6 & He2end & Hst & Hd & Hw7 & Hbody & Hw8 & Hen)
+             (Hk & Hw1 & Hv & Hw2 & Ha & Hw3 & He1 & Hw4 & He1end & Hto & Hw5 & He2 & Hw6 & He2end & Hst & Hd & Hw7 & Hbody & Hw8 & Hen & Habs)
              rest _ F L f HF HL _.
       cbn [size_s] in HF, HL. cbn [flat_s erase_s app].
       rewrite (stmt1_kw _ _ _ k _ KwFor Hk). unfold StParser.for_tail.
@@ -514,7 +589,9 @@ Section G.
       rewrite (pe0_at w3 e1 w4 to _ F Hw3 He1 Hw4 He1end) by (try lia; rewrite Hto; reflexivity).
       rewrite (next_is_at tk cl _ w4 to _ Hw4 (kw_solid to _ Hto)) by (rewrite Hto; reflexivity).
       assert (Hbody' : plist L (flat_l body ++ w8 ++ en :: rest) = Ok (erase_l body, w8 ++ en :: rest)).
-      { apply IHbody; [exact Hbody | | lia]. eapply closer_at; [exact Hw8 | exact Hen | reflexivity]. }
+      { apply (proj1 IHbody); [exact Hbody | | | lia].
+        - eapply closer_at; [exact Hw8 | exact Hen | reflexivity].
+        - intro Hb. eapply closer_skip; [exact Hw8 | exact Hen | exact (Habs Hb)]. }
       destruct st as [|bk bw1 be bw2]; cbn [flat_by erase_by size_by app wf_by] in *.
       + unfold R3. rewrite (pe0_at w5 e2 w6 d _ F Hw5 He2 Hw6 He2end) by (try lia; rewrite Hd; reflexivity).
         rewrite (next_is_not tk cl _ w6 d _ Hw6 (kw_solid d _ Hd)) by (rewrite Hd; reflexivity).
@@ -530,7 +607,7 @@ Section G.
         rewrite (skip_app_triv tk cl w7 _ Hw7), (flat_l_skip body _ Hbody), Hbody'.
         rewrite (next_is_at tk cl _ w8 en rest Hw8 (kw_solid en _ Hen)) by (rewrite Hen; reflexivity). reflexivity.
     - (* WHILE *)
-      intros k w1 c w2 d w3 body IHbody w4 en (Hk & Hw1 & Hc & Hw2 & Hcend & Hd & Hw3 & Hbody & Hw4 & Hen) rest _ F L f HF HL _.
+      intros k w1 c w2 d w3 body IHbody w4 en (Hk & Hw1 & Hc & Hw2 & Hcend & Hd & Hw3 & Hbody & Hw4 & Hen & Habs) rest _ F L f HF HL _.
       cbn [size_s] in HF, HL. cbn [flat_s erase_s app].
       rewrite (stmt1_kw _ _ _ k _ KwWhile Hk). unfold StParser.while_tail.
       replace ((w1 ++ flat c ++ w2 ++ d :: w3 ++ flat_l body ++ w4 ++ [en]) ++ rest)
@@ -539,17 +616,21 @@ Section G.
       rewrite (pe0_at w1 c w2 d _ F Hw1 Hc Hw2 Hcend) by (try lia; rewrite Hd; reflexivity).
       rewrite (next_is_at tk cl _ w2 d _ Hw2 (kw_solid d _ Hd)) by (rewrite Hd; reflexivity).
       rewrite (skip_app_triv tk cl w3 _ Hw3), (flat_l_skip body _ Hbody).
-      rewrite (IHbody Hbody (w4 ++ en :: rest)) by first [lia | eapply closer_at; [exact Hw4 | exact Hen | reflexivity]].
+      rewrite (proj1 IHbody Hbody (w4 ++ en :: rest));
+        [ | eapply closer_at; [exact Hw4 | exact Hen | reflexivity]
+          | intro Hb; eapply closer_skip; [exact Hw4 | exact Hen | exact (Habs Hb)] | lia].
       rewrite (next_is_at tk cl _ w4 en rest Hw4 (kw_solid en _ Hen)) by (rewrite Hen; reflexivity). reflexivity.
     - (* REPEAT *)
-      intros k w1 body IHbody w2 u w3 c w4 en (Hk & Hw1 & Hbody & Hw2 & Hu & Hw3 & Hc & Hw4 & Hcend & Hen) rest _ F L f HF HL _.
+      intros k w1 body IHbody w2 u w3 c w4 en (Hk & Hw1 & Hbody & Hw2 & Hu & Hw3 & Hc & Hw4 & Hcend & Hen & Habs) rest _ F L f HF HL _.
       cbn [size_s] in HF, HL. cbn [flat_s erase_s app].
       rewrite (stmt1_kw _ _ _ k _ KwRepeat Hk). unfold StParser.repeat_tail.
       replace ((w1 ++ flat_l body ++ w2 ++ u :: w3 ++ flat c ++ w4 ++ [en]) ++ rest)
         with (w1 ++ flat_l body ++ w2 ++ u :: w3 ++ flat c ++ w4 ++ en :: rest)
         by (repeat (rewrite <- app_assoc; cbn [app]); reflexivity).
       rewrite (skip_app_triv tk cl w1 _ Hw1), (flat_l_skip body _ Hbody).
-      rewrite (IHbody Hbody (w2 ++ u :: w3 ++ flat c ++ w4 ++ en :: rest)) by first [lia | eapply closer_at; [exact Hw2 | exact Hu | reflexivity]].
+      rewrite (proj1 IHbody Hbody (w2 ++ u :: w3 ++ flat c ++ w4 ++ en :: rest));
+        [ | eapply closer_at; [exact Hw2 | exact Hu | reflexivity]
+          | intro Hb; eapply closer_skip; [exact Hw2 | exact Hu | exact (Habs Hb)] | lia].
       rewrite (next_is_at tk cl _ w2 u _ Hw2 (kw_solid u _ Hu)) by (rewrite Hu; reflexivity).
       rewrite (pe0_at w3 c w4 en rest F Hw3 Hc Hw4 Hcend) by (try lia; rewrite Hen; reflexivity).
       rewrite (next_is_at tk cl _ w4 en rest Hw4 (kw_solid en _ Hen)) by (rewrite Hen; reflexivity). reflexivity.
@@ -557,13 +638,45 @@ Section G.
       intros k Hk rest _ F L f _ _ _. cbn [flat_s erase_s app wf_s] in *. rewrite (stmt1_kw _ _ _ k _ KwExit Hk). reflexivity.
     - (* RETURN *)
       intros k Hk rest _ F L f _ _ _. cbn [flat_s erase_s app wf_s] in *. rewrite (stmt1_kw _ _ _ k _ KwReturn Hk). reflexivity.
-    - (* a list: s1 ; ... sn ; *)
-      intros s IHs m IHm w semi (Hs & Hm & Hw & Hsemi & Hsend) rest Hrest L HL. cbn [size_l] in HL.
-      destruct L as [|L]; [lia|]. cbn [StParser.plist flat_l erase_l].
+    - (* a list of one group *)
+      intros g IHg. pose proof (size_g_pos g) as Hgp. split.
+      + intros Hg rest Hrest Habs L HL. cbn [size_l wf_l flat_l erase_l absorbs] in *.
+        destruct L as [|L]; [lia|]. cbn [StParser.plist]. unfold StParser.stmt_list.
+        assert (Hgf : gfollow g rest) by (destruct g; cbn [gfollow gempty] in *; [apply Habs; reflexivity | apply closer_nostart; exact Hrest]).
+        rewrite (IHg true Hg rest Hgf) by lia.
+        destruct L as [|L']; [lia|]. rewrite groups_stop; [reflexivity | intros; apply stmt1_fails; assumption | reflexivity | exact Hrest].
+      + intros pe Hg rest Hrest Habs acc F L f0 f HF HL Hf0 Hf. cbn [size_l wf_l flat_l erase_l absorbs] in *.
+        destruct f as [|f]; [lia|]. cbn [StParser.groups_more].
+        assert (Hgf : gfollow g rest) by (destruct g; cbn [gfollow gempty] in *; [apply Habs; reflexivity | apply closer_nostart; exact Hrest]).
+        rewrite (IHg pe Hg rest Hgf) by lia.
+        destruct f as [|f']; [lia|]. rewrite groups_stop; [reflexivity | intros; apply stmt1_fails; assumption | reflexivity | exact Hrest].
+    - (* a group and more *)
+      intros g IHg l [_ IHl].
+      assert (Hfol : forall pe, wf_g pe g -> wf_l (gempty g) l -> forall rest, gfollow g (flat_l l ++ rest)).
+      { intros pe Hg Hl rest. destruct g as [w1 semi w2|s m w semi]; cbn [gfollow gempty] in *.
+        - apply flat_l_skip. exact Hl.
+        - apply wf_false_nostart. exact Hl. }
+      split.
+      + intros (Hg & Hl) rest Hrest Habs L HL. cbn [size_l flat_l erase_l absorbs] in *.
+        destruct L as [|L]; [lia|]. cbn [StParser.plist]. unfold StParser.stmt_list. rewrite <- app_assoc.
+        rewrite (IHg true Hg (flat_l l ++ rest) (Hfol true Hg Hl rest)) by lia.
+        rewrite (IHl (gempty g) Hl rest Hrest Habs (erase_g g) L L L L) by lia. reflexivity.
+      + intros pe (Hg & Hl) rest Hrest Habs acc F L f0 f HF HL Hf0 Hf. cbn [size_l flat_l erase_l absorbs] in *.
+        destruct f as [|f]; [lia|]. cbn [StParser.groups_more]. rewrite <- app_assoc.
+        rewrite (IHg pe Hg (flat_l l ++ rest) (Hfol pe Hg Hl rest)) by lia.
+        rewrite (IHl (gempty g) Hl rest Hrest Habs (acc ++ erase_g g) F L f0 f) by lia. rewrite <- app_assoc. reflexivity.
+    - (* an empty statement *)
+      intros w1 semi w2 pe (_ & Hw1 & Hsemi & Hw2) rest Hrest F L f0 f _ _ _ _. cbn [gfollow] in Hrest. cbn [flat_g erase_g].
+      assert (Hss : solid semi) by (unfold StExprProofs.solid; rewrite Hsemi; discriminate).
+      unfold StParser.group. rewrite <- app_assoc. cbn [app]. rewrite (next_is_at tk cl _ w1 semi _ Hw1 Hss) by (rewrite Hsemi; reflexivity).
+      rewrite (skip_app_triv tk cl w2 _ Hw2), Hrest. reflexivity.
+    - (* statements:  s1 ; ... sn ; *)
+      intros s IHs m IHm w semi pe (_ & Hs & Hm & Hw & Hsemi & Hsend) rest Hrest F L f0 f HF HL Hf0 Hf.
+      cbn [gfollow] in Hrest. cbn [size_g] in HF, HL, Hf0, Hf. cbn [flat_g erase_g].
       assert (Hss : solid semi) by (unfold StExprProofs.solid; rewrite Hsemi; discriminate).
       replace ((flat_s s ++ flat_m m ++ w ++ [semi]) ++ rest) with (flat_s s ++ flat_m m ++ w ++ semi :: rest)
         by (repeat (rewrite <- app_assoc; cbn [app]); reflexivity).
-      unfold StParser.stmt_list, StParser.group.
+      unfold StParser.group.
       destruct (flat_s_head s (flat_m m ++ w ++ semi :: rest) Hs) as (t & r' & E & Ht & Hnsemi).
       assert (Hnext : next_is is_semi (flat_s s ++ flat_m m ++ w ++ semi :: rest) = None).
       { rewrite E. unfold StParser.next_is. rewrite (skip_solid tk cl t r' Ht), Hnsemi. reflexivity. }
@@ -573,19 +686,9 @@ Section G.
         - exists w, semi, rest. repeat split; assumption.
         - destruct Hm as (Hmw1 & Hmsemi & _). eexists mw1, msemi, _. rewrite <- !app_assoc. cbn [app].
           split; [reflexivity|]. repeat split; assumption. }
-      rewrite (IHs Hs _ Hsn L L L) by lia.
-      rewrite (IHm w Hm Hw semi rest [erase_s s] Hsemi (closer_nostart rest Hrest) L L L L) by lia.
-      rewrite (next_is_at tk cl _ w semi rest Hw Hss) by (rewrite Hsemi; reflexivity).
-      (* no further group *)
-      destruct L as [|L']; [lia|]. cbn [StParser.groups_more]. unfold StParser.group.
-      assert (Hno : next_is is_semi rest = None /\ stmt1 (pexpr (S L')) (plist (S L')) (S L') rest = Fail).
-      { unfold closer_next in Hrest. unfold StParser.next_is. destruct (skip rest) as [|t0 r0] eqn:Er; [contradiction|].
-        destruct (cl t0) eqn:Ec; try contradiction. split; [reflexivity|].
-        destruct rest as [|x xs]; [discriminate|]. apply stmt1_fails.
-        cbn in Er. destruct (is_triv tk cl x) eqn:Ex.
-        - unfold is_triv in Ex. destruct (cl x); try discriminate; reflexivity.
-        - injection Er as -> _. rewrite Ec. cbn. rewrite Hrest. reflexivity. }
-      destruct Hno as [Hn1 Hn2]. rewrite Hn1, Hn2. reflexivity.
+      rewrite (IHs Hs _ Hsn F L f0) by lia.
+      rewrite (IHm w Hm Hw semi rest [erase_s s] Hsemi Hrest F L f0 f) by lia.
+      rewrite (next_is_at tk cl _ w semi rest Hw Hss) by (rewrite Hsemi; reflexivity). reflexivity.
     - (* no further statement *)
       intros w _ Hw semi rest acc Hsemi Hrest F L f0 f _ _ _ Hf. cbn [size_m] in Hf. destruct f as [|f]; [lia|].
       assert (Hss : solid semi) by (unfold StExprProofs.solid; rewrite Hsemi; discriminate).
@@ -611,68 +714,85 @@ Section G.
       rewrite (IHm w Hm Hw semi rest (acc ++ [erase_s s]) Hsemi Hrest F L f0 f) by lia.
       rewrite <- app_assoc. reflexivity.
     - (* no body *)
-      intros _ rest Hrest L HL. cbn [size_b] in HL. destruct L as [|L]; [lia|]. cbn [flat_b erase_b app].
+      intros _ rest Hrest _ L HL. cbn [size_b] in HL. destruct L as [|L]; [lia|]. cbn [flat_b erase_b app].
       unfold StParser.opt_list. unfold closer_next in Hrest. destruct (skip rest) as [|t r] eqn:Er; [contradiction|].
       destruct (cl t) eqn:Ec; try contradiction.
       rewrite plist_fails; [reflexivity | rewrite Ec; cbn; rewrite Hrest; reflexivity | rewrite Ec; discriminate | rewrite Ec; discriminate].
     - (* a body *)
-      intros l IHl Hl rest Hrest L HL. cbn [size_b] in HL. cbn [flat_b erase_b wf_b] in *.
-      rewrite (flat_l_skip l rest Hl). unfold StParser.opt_list. rewrite (IHl Hl rest Hrest L) by lia. reflexivity.
+      intros l IHl Hl rest Hrest Habs L HL. cbn [size_b] in HL. cbn [flat_b erase_b wf_b babsorbs] in *.
+      rewrite (flat_l_skip l rest Hl). unfold StParser.opt_list. rewrite (proj1 IHl Hl rest Hrest Habs L) by lia. reflexivity.
     - (* no ELSIF *)
-      intros _ rest Hrest F L f _ _ Hf. cbn [size_eis] in Hf. cbn [flat_eis erase_eis app].
-      assert (Hfail : elsif1 (pexpr F) (plist L) (skip rest) = Fail).
-      { unfold eis_follow in Hrest. unfold StParser.elsif1. destruct (skip rest) as [|t r]; [reflexivity|].
-        destruct (cl t) as [| |k0| | | | | | |o| | |k| | | |]; try contradiction. destruct k; try contradiction; reflexivity. }
+      intros wt _ Hwt t0 r0 Ht0 F L f _ _ Hf. cbn [size_eis] in Hf. cbn [flat_eis erase_eis app].
+      assert (Hfail : elsif1 (pexpr F) (plist L) (skip (wt ++ t0 :: r0)) = Fail).
+      { rewrite (skip_app_triv tk cl wt _ Hwt).
+        assert (Hs0 : solid t0) by (unfold StExprProofs.solid; destruct Ht0 as [E|E]; rewrite E; discriminate).
+        rewrite (skip_solid tk cl t0 r0 Hs0). unfold StParser.elsif1. destruct Ht0 as [E|E]; rewrite E; reflexivity. }
       split.
       + intro acc. destruct f as [|f]; [lia|]. cbn [StParser.elsifs_more]. rewrite Hfail, app_nil_r. reflexivity.
       + unfold StParser.elsifs. rewrite Hfail. reflexivity.
     - (* ELSIF *)
-      intros w0 k w1 c w2 th w3 body IHbody r IHr (Hw0 & Hk & Hw1 & Hc & Hw2 & Hcend & Hth & Hw3 & Hbody & Hr) rest Hrest F L f HF HL Hf.
+      intros w0 k w1 c w2 th w3 body IHbody r IHr wt (Hw0 & Hk & Hw1 & Hc & Hw2 & Hcend & Hth & Hw3 & Hbody & Hr & Habs) Hwt t0 r0 Ht0 F L f HF HL Hf.
       cbn [size_eis] in HF, HL, Hf. cbn [flat_eis erase_eis].
+      set (rest := wt ++ t0 :: r0).
       replace ((w0 ++ k :: w1 ++ flat c ++ w2 ++ th :: w3 ++ flat_l body ++ flat_eis r) ++ rest)
         with (w0 ++ k :: w1 ++ flat c ++ w2 ++ th :: w3 ++ flat_l body ++ flat_eis r ++ rest)
         by (repeat (rewrite <- app_assoc; cbn [app]); reflexivity).
+      assert (Ht0k : exists k0, cl t0 = CKw k0 /\ starter k0 = false) by (destruct Ht0 as [E|E]; eexists; (split; [exact E | reflexivity])).
+      destruct Ht0k as (k0 & Ek0 & Sk0).
+      assert (Hcl : closer_next (flat_eis r ++ rest)).
+      { unfold rest. destruct r as [|rw0 rk rw1 rc rw2 rth rw3 rbody rr]; cbn [flat_eis app wf_eis] in *.
+        - eapply closer_at; [exact Hwt | exact Ek0 | exact Sk0].
+        - destruct Hr as (Hrw0 & Hrk & _). rewrite <- !app_assoc. cbn [app]. eapply closer_at; [exact Hrw0 | exact Hrk | reflexivity]. }
+      assert (Hsk : absorbs body = true -> skip (flat_eis r ++ rest) = flat_eis r ++ rest).
+      { intro Hb. specialize (Habs Hb). unfold rest. destruct r as [|rw0 rk rw1 rc rw2 rth rw3 rbody rr]; cbn [flat_eis app eis_lead wf_eis] in *.
+        - rewrite Habs. cbn [app]. apply skip_solid. unfold StExprProofs.solid. rewrite Ek0. discriminate.
+        - destruct Hr as (_ & Hrk & _). rewrite Habs. cbn [app]. apply skip_solid. unfold StExprProofs.solid. rewrite Hrk. discriminate. }
       assert (H1 : elsif1 (pexpr F) (plist L) (k :: w1 ++ flat c ++ w2 ++ th :: w3 ++ flat_l body ++ flat_eis r ++ rest) =
                    Ok ((erase c, erase_l body), flat_eis r ++ rest)).
       { unfold StParser.elsif1. rewrite Hk. cbn [is_kw kw_eqb].
         rewrite (pe0_at w1 c w2 th _ F Hw1 Hc Hw2 Hcend) by (try lia; rewrite Hth; reflexivity).
         rewrite (next_is_at tk cl _ w2 th _ Hw2 (kw_solid th _ Hth)) by (rewrite Hth; reflexivity).
         rewrite (skip_app_triv tk cl w3 _ Hw3), (flat_l_skip body _ Hbody).
-        rewrite (IHbody Hbody (flat_eis r ++ rest)) by first [lia | apply eis_closer; assumption]. reflexivity. }
-      destruct (IHr Hr rest Hrest F L f) as [HA _]; try lia.
+        rewrite (proj1 IHbody Hbody (flat_eis r ++ rest) Hcl Hsk) by lia. reflexivity. }
+      destruct (IHr wt Hr Hwt t0 r0 Ht0 F L f) as [HA _]; try lia. fold rest in HA.
       rewrite (skip_app_triv tk cl w0 _ Hw0), (skip_solid tk cl k _ (kw_solid k _ Hk)).
       split.
       + intro acc. destruct f as [|f]; [lia|]. cbn [StParser.elsifs_more].
         rewrite (skip_app_triv tk cl w0 _ Hw0), (skip_solid tk cl k _ (kw_solid k _ Hk)), H1.
-        destruct (IHr Hr rest Hrest F L f) as [HA' _]; try lia. rewrite HA'. rewrite <- app_assoc. reflexivity.
+        destruct (IHr wt Hr Hwt t0 r0 Ht0 F L f) as [HA' _]; try lia. fold rest in HA'. rewrite HA'. rewrite <- app_assoc. reflexivity.
       + unfold StParser.elsifs. rewrite H1. rewrite HA. reflexivity.
     - (* no ELSE *)
-      intros _ w4 en r Hw4 Hen L _. cbn [flat_el erase_el app]. unfold StParser.else_part.
+      intros w4 _ en r Hw4 Hen L _. cbn [flat_el erase_el app]. unfold StParser.else_part.
       rewrite (next_is_not tk cl _ w4 en r Hw4 (kw_solid en _ Hen)) by (rewrite Hen; reflexivity). reflexivity.
     - (* ELSE *)
-      intros w0 k w1 body IHbody (Hw0 & Hk & Hw1 & Hbody) w4 en r Hw4 Hen L HL. cbn [size_el] in HL. cbn [flat_el erase_el].
+      intros w0 k w1 body IHbody w4 (Hw0 & Hk & Hw1 & Hbody & Habs) en r Hw4 Hen L HL. cbn [size_el] in HL. cbn [flat_el erase_el].
       rewrite <- !app_assoc. cbn [app]. rewrite <- !app_assoc. unfold StParser.else_part.
       rewrite (next_is_at tk cl _ w0 k _ Hw0 (kw_solid k _ Hk)) by (rewrite Hk; reflexivity).
       rewrite (skip_app_triv tk cl w1 _ Hw1), (flat_l_skip body _ Hbody).
-      rewrite (IHbody Hbody (w4 ++ en :: r)) by first [lia | eapply closer_at; [exact Hw4 | exact Hen | reflexivity]]. reflexivity.
+      rewrite (proj1 IHbody Hbody (w4 ++ en :: r));
+        [ reflexivity | eapply closer_at; [exact Hw4 | exact Hen | reflexivity]
+          | intro Hb; eapply closer_skip; [exact Hw4 | exact Hen | exact (Habs Hb)] | lia].
   Qed.
 
-  (* every well-formed spelling of a statement list is parsed to the list it denotes; the number of nodes is enough fuel *)
+  (* every well-formed spelling of a statement list -- empty statements included -- is parsed to the list it denotes; the
+     number of nodes is enough fuel *)
   Theorem plist_spelled : forall l rest L,
-    wf_l l -> closer_next rest -> size_l l <= L -> plist L (flat_l l ++ rest) = Ok (erase_l l, rest).
-  Proof. intros l rest L Hl Hrest HL. destruct main_s as (_ & M & _). apply M; assumption. Qed.
+    wf_l true l -> closer_next rest -> (absorbs l = true -> skip rest = rest) -> size_l l <= L ->
+    plist L (flat_l l ++ rest) = Ok (erase_l l, rest).
+  Proof. intros l rest L Hl Hrest Habs HL. destruct main_s as (_ & M & _). apply (proj1 (M l)); assumption. Qed.
 
   (* ---- the number of nodes is bounded by the number of tokens ---- *)
   Lemma size_bound_s :
     (forall s, size_s s <= 3 * length (flat_s s)) /\
     (forall l, size_l l <= 3 * length (flat_l l)) /\
+    (forall g, size_g g + 1 <= 3 * length (flat_g g)) /\
     (forall m, size_m m <= 3 * length (flat_m m) + 1) /\
     (forall b, size_b b <= 3 * length (flat_b b) + 1) /\
     (forall e, size_eis e <= 3 * length (flat_eis e) + 1) /\
     (forall e, size_el e <= 3 * length (flat_el e) + 1).
   Proof.
     destruct (size_bound tk) as (Be & Bp & Bps).
-    apply ss_mutind; intros; cbn [size_s size_l size_m size_b size_eis size_el flat_s flat_l flat_m flat_b flat_eis flat_el];
+    apply ss_mutind; intros; cbn [size_s size_l size_g size_m size_b size_eis size_el flat_s flat_l flat_g flat_m flat_b flat_eis flat_el];
       repeat (rewrite app_length || cbn [length]);
       repeat match goal with
              | |- context [size ?e] => pose proof (Be e); generalize dependent (size e); intros
@@ -697,52 +817,57 @@ Section G.
       | apply scoped_cons; [eapply ok_of_class; [eassumption | reflexivity] | ] ].
 
   Lemma wf_scoped_s :
-    (forall s, wf_s s -> scoped (flat_s s)) /\ (forall l, wf_l l -> scoped (flat_l l)) /\
+    (forall s, wf_s s -> scoped (flat_s s)) /\ (forall l, forall pe, wf_l pe l -> scoped (flat_l l)) /\
+    (forall g, forall pe, wf_g pe g -> scoped (flat_g g)) /\
     (forall m, forall w, wf_m w m -> scoped (flat_m m)) /\ (forall b, wf_b b -> scoped (flat_b b)) /\
-    (forall e, wf_eis e -> scoped (flat_eis e)) /\ (forall e, wf_el e -> scoped (flat_el e)).
+    (forall e, forall wt, wf_eis wt e -> scoped (flat_eis e)) /\ (forall e, forall w4, wf_el w4 e -> scoped (flat_el e)).
   Proof.
     destruct (wf_scoped tk cl lvl) as (Se & Sp & Sps).
     assert (SE : forall e, wf 0 e -> scoped (flat e)) by (intros e H; apply (proj1 (Se e) 0 H)).
-    apply ss_mutind with (P := fun s => wf_s s -> scoped (flat_s s)) (P0 := fun l => wf_l l -> scoped (flat_l l))
-      (P1 := fun m => forall w, wf_m w m -> scoped (flat_m m)) (P2 := fun b => wf_b b -> scoped (flat_b b))
-      (P3 := fun e => wf_eis e -> scoped (flat_eis e)) (P4 := fun e => wf_el e -> scoped (flat_el e)).
+    apply ss_mutind with (P := fun s => wf_s s -> scoped (flat_s s)) (P0 := fun l => forall pe, wf_l pe l -> scoped (flat_l l))
+      (P1 := fun g => forall pe, wf_g pe g -> scoped (flat_g g))
+      (P2 := fun m => forall w, wf_m w m -> scoped (flat_m m)) (P3 := fun b => wf_b b -> scoped (flat_b b))
+      (P4 := fun e => forall wt, wf_eis wt e -> scoped (flat_eis e)) (P5 := fun e => forall w4, wf_el w4 e -> scoped (flat_el e)).
     - intros v w1 a w2 e (H1 & H2 & H3 & H4 & H5). cbn [flat_s]. pose proof (SE e H5). sc.
     - intros f w1 lp w2 rp (H1 & H2 & H3 & H4 & H5). cbn [flat_s]. sc.
     - intros f w1 lp w2 p ps w3 rp (H1 & H2 & H3 & H4 & H5 & H6 & H7 & H8 & _). cbn [flat_s].
       pose proof (Sp p H5). pose proof (Sps ps w3 H6). sc.
-    - intros k w1 c w2 th w3 b IHb eis IHe el IHl w4 en (H1 & H2 & H3 & H4 & _ & H6 & H7 & H8 & H9 & H10 & H11 & H12).
-      cbn [flat_s]. pose proof (SE c H3). specialize (IHb H8). specialize (IHe H9). specialize (IHl H10). sc.
+    - intros k w1 c w2 th w3 b IHb eis IHe el IHl w4 en (H1 & H2 & H3 & H4 & _ & H6 & H7 & H8 & H9 & H10 & H11 & H12 & _).
+      cbn [flat_s]. pose proof (SE c H3). specialize (IHb H8). specialize (IHe _ H9). specialize (IHl _ H10). sc.
     - intros k w1 v w2 a w3 e1 w4 to w5 e2 w6 st d w7 body IHb w8 en
-             (H1 & H2 & H3 & H4 & H5 & H6 & H7 & H8 & _ & H10 & H11 & H12 & H13 & _ & H15 & H16 & H17 & H18 & H19 & H20).
-      cbn [flat_s]. pose proof (SE e1 H7). pose proof (SE e2 H12). specialize (IHb H18).
+             (H1 & H2 & H3 & H4 & H5 & H6 & H7 & H8 & _ & H10 & H11 & H12 & H13 & _ & H15 & H16 & H17 & H18 & H19 & H20 & _).
+      cbn [flat_s]. pose proof (SE e1 H7). pose proof (SE e2 H12). specialize (IHb _ H18).
       assert (Hby : scoped (flat_by st)).
       { destruct st as [|bk bw1 be bw2]; cbn [flat_by wf_by] in *; [apply scoped_nil|].
         destruct H15 as (B1 & B2 & B3 & B4 & _). pose proof (SE be B3). sc. }
       sc.
-    - intros k w1 c w2 d w3 body IHb w4 en (H1 & H2 & H3 & H4 & _ & H6 & H7 & H8 & H9 & H10). cbn [flat_s].
-      pose proof (SE c H3). specialize (IHb H8). sc.
-    - intros k w1 body IHb w2 u w3 c w4 en (H1 & H2 & H3 & H4 & H5 & H6 & H7 & H8 & _ & H10). cbn [flat_s].
-      pose proof (SE c H7). specialize (IHb H3). sc.
+    - intros k w1 c w2 d w3 body IHb w4 en (H1 & H2 & H3 & H4 & _ & H6 & H7 & H8 & H9 & H10 & _). cbn [flat_s].
+      pose proof (SE c H3). specialize (IHb _ H8). sc.
+    - intros k w1 body IHb w2 u w3 c w4 en (H1 & H2 & H3 & H4 & H5 & H6 & H7 & H8 & _ & H10 & _). cbn [flat_s].
+      pose proof (SE c H7). specialize (IHb _ H3). sc.
     - intros k H. cbn [flat_s wf_s] in *. sc.
     - intros k H. cbn [flat_s wf_s] in *. sc.
-    - intros s IHs m IHm w semi (H1 & H2 & H3 & H4 & _). cbn [flat_l]. specialize (IHs H1). specialize (IHm w H2). sc.
+    - intros g IHg pe H. cbn [flat_l wf_l] in *. apply (IHg pe H).
+    - intros g IHg l IHl pe (H1 & H2). cbn [flat_l]. specialize (IHg pe H1). specialize (IHl _ H2). sc.
+    - intros w1 semi w2 pe (_ & H1 & H2 & H3). cbn [flat_g]. sc.
+    - intros s IHs m IHm w semi pe (_ & H1 & H2 & H3 & H4 & _). cbn [flat_g]. specialize (IHs H1). specialize (IHm w H2). sc.
     - intros w _. apply scoped_nil.
     - intros w1 semi w2 s IHs m IHm w (H1 & H2 & H3 & H4 & H5 & _). cbn [flat_m]. specialize (IHs H4). specialize (IHm w H5). sc.
     - intros _. apply scoped_nil.
-    - intros l IHl H. cbn [flat_b wf_b] in *. apply IHl. exact H.
-    - intros _. apply scoped_nil.
-    - intros w0 k w1 c w2 th w3 body IHb r IHr (H1 & H2 & H3 & H4 & H5 & _ & H7 & H8 & H9 & H10). cbn [flat_eis].
-      pose proof (SE c H4). specialize (IHb H9). specialize (IHr H10). sc.
-    - intros _. apply scoped_nil.
-    - intros w0 k w1 body IHb (H1 & H2 & H3 & H4). cbn [flat_el]. specialize (IHb H4). sc.
+    - intros l IHl H. cbn [flat_b wf_b] in *. apply (IHl true). exact H.
+    - intros wt _. apply scoped_nil.
+    - intros w0 k w1 c w2 th w3 body IHb r IHr wt (H1 & H2 & H3 & H4 & H5 & _ & H7 & H8 & H9 & H10 & _). cbn [flat_eis].
+      pose proof (SE c H4). specialize (IHb _ H9). specialize (IHr _ H10). sc.
+    - intros w4 _. apply scoped_nil.
+    - intros w0 k w1 body IHb w4 (H1 & H2 & H3 & H4 & _). cbn [flat_el]. specialize (IHb _ H4). sc.
   Qed.
 
-  Lemma wf_l_in_scope l w2 en k w3 : wf_l l -> all_triv w2 -> cl en = CKw k -> all_triv w3 ->
+  Lemma wf_l_in_scope l w2 en k w3 : wf_l true l -> all_triv w2 -> cl en = CKw k -> all_triv w3 ->
     in_scope tk cl (flat_l l ++ w2 ++ en :: w3) = true.
   Proof.
     intros Hl H2 Hen H3. unfold StParser.in_scope.
     assert (S : scoped (flat_l l ++ w2 ++ en :: w3)).
-    { pose proof (proj1 (proj2 wf_scoped_s) l Hl). sc. }
+    { pose proof (proj1 (proj2 wf_scoped_s) l true Hl). sc. }
     specialize (S false []). rewrite app_nil_r in S. rewrite S. destruct (is_nil tk _); reflexivity.
   Qed.
 End G.
